@@ -106,6 +106,7 @@ type refMachine struct {
 	fwdSites   map[*lst]bool        // call sites created before the callee existed
 	boundAt    map[*lst]*lambda     // mutEarlyBind: definition seen when the caller was defined
 	fwdNames   map[sym]bool         // functions referenced before they existed
+	fwdVars    map[sym]bool         // global variables referenced before they existed
 	cache      map[*lst]val         // mutCacheArgValue
 	edges      []fwdEdge            // forward edges in order of discovery
 	redefSeen  bool                 // a call reached a function whose definition was replaced after the caller was defined
@@ -117,7 +118,7 @@ type refMachine struct {
 
 func newRefMachine(m mutation) *refMachine {
 	return &refMachine{funcs: map[sym]*lambda{}, globals: map[sym]*val{}, slots: map[int][]val{}, mut: m,
-		fwdSites: map[*lst]bool{}, boundAt: map[*lst]*lambda{}, fwdNames: map[sym]bool{}, cache: map[*lst]val{},
+		fwdSites: map[*lst]bool{}, boundAt: map[*lst]*lambda{}, fwdNames: map[sym]bool{}, fwdVars: map[sym]bool{}, cache: map[*lst]val{},
 		definedGen: map[sym]int{}, siteGen: map[*lst]int{}, evalCount: map[int]int{}, ranCompiled: map[int]bool{}}
 }
 
@@ -821,6 +822,13 @@ func (m *refMachine) builtin(head sym, l *lst, e *env) val {
 func (m *refMachine) noteSites(v val, pos string) {
 	l, ok := v.(*lst)
 	if !ok {
+		// a global variable (*name*) read by code that is created before the variable exists
+		if s, ok := v.(sym); ok && 2 < len(s) && s[0] == '*' && s[len(s)-1] == '*' {
+			if _, has := m.globals[s]; !has && !m.fwdVars[s] {
+				m.fwdVars[s] = true
+				m.edges = append(m.edges, fwdEdge{pos: "var"})
+			}
+		}
 		return
 	}
 	head, ok := l.items[0].(sym)
